@@ -631,6 +631,7 @@ func runChunks(r *common.Run) {
 	add(srcSplit, 2)
 	add(srcStream, 1)
 	add(srcSplit, 3)
+	add(srcStream, 3) // a stream of more than two blocks: chunks are queued while later blocks are written
 	if r.Thorough() {
 		add(srcStream, 2)
 		add(srcSplit, 3)
@@ -721,6 +722,12 @@ func runScript(r *common.Run, sc *script) {
 		return w
 	}
 	viol := func(key, detail string) {
+		if r.Prop == "C14" && !strings.HasPrefix(key, "finalized-with-corrupt-chunk") {
+			// registered for C14 only for its clause "a received chunk stream that is corrupted or
+			// cut short anywhere is rejected": everything else this mode sees belongs to C15
+			r.Count("alarms_of_other_properties_C15", 1)
+			return
+		}
 		r.Violation("chunks:"+key, detail, witness(detail))
 	}
 
